@@ -17,9 +17,25 @@ NA = {
     "C14": "pure function of one code object (iteration enumerates nested code; the generators read only immutable data, so even interleaving two iterations cannot matter)",
 }
 
-PENDING = {k: "claimed in DESIGN.md; check under construction in this session (not yet registered)" for k in ["C07", "C15", "C16"]}
+PENDING = {}
 
 CHECKS = {
+    "C15": {
+        "engine": "B-exchange-simulation",
+        "category": "exploration",
+        "design_ref": "DESIGN.md sections 5.1, 5.2",
+        "technique": "deterministic simulation of a multi-node exchange: producers on CPython 3.7-3.10 and consumers on 3.7-3.13 as real processes under a hub that decides every delivery, order, duplication, transcoding, key/frozenset shuffle and node restart (new hash seed) from one seed; canonical-form monitors at every hop",
+        "text": "Seeded search over producer->consumer routes (1-3 hops) across seven interpreter versions with seeded hash seeds and transport faults that preserve meaning (duplicate, reorder, transcode via json/orjson, shuffle key order and frozenset listings, restart the consumer). At every hop the canonical re-serialization must equal the producer's document, the canonical normalized form must be the same on every host, duplicate and post-restart deliveries must answer identically, and hosts that cannot build code objects (3.11+) must still load, normalize and dump. The full producer x consumer version matrix is filled in every quick run; sampling of documents and routes, not proof.",
+        "note": "Nodes are separate OS processes (different CPython versions cannot share an address space); the hub has one request outstanding per run, so runs are sequential and replay from their explicit plan. Loss/truncation/corruption of JSON text is not injected: the property promises nothing about broken documents.",
+    },
+    "C16": {
+        "engine": "B-exchange-simulation",
+        "category": "exploration",
+        "design_ref": "DESIGN.md section 5.4",
+        "technique": "deterministic simulation of the CLI as a process node: real `python -c 'from code_data._cli import main; main()'` processes with seeded interpreter, hash seed, source kind and option subsets, invalid source combinations, and warm re-invocation in one process; stdout compared section by section with an API oracle node of the same version (addresses scrubbed, frozenset listing order canonicalised)",
+        "text": "Seeded search over CLI invocations on CPython 3.7-3.10: source kind {file, -c, -e, -m} x subsets of {--dis, --dis-after, --source, --no-normalize, --json} x valid / invalid source combinations (incl. the empty -c/-e source) x hash seeds; the oracle node renders what the API returns for the same program and the hub compares exit status and every stdout section; the printed JSON is loaded back through from_json_data; --dis-after is compared with the disassembly of the oracle's to_code() and, symbolically, with the original; N warm invocations of main() in one process must print what fresh processes print.",
+        "note": "stdio pinned to UTF-8; rich is absent on 3.7-3.10, so the CLI's own plain-print fallback runs (as the property's observe_at says). I/O faults (closed stdout, unreadable file) are not injected: the property states no behaviour for them.",
+    },
     "C06": {
         "engine": "A-history-machine",
         "category": "exploration",
@@ -27,6 +43,14 @@ CHECKS = {
         "technique": "deterministic simulation: seeded histories of code/JSON round trips and normalize over one program lineage, with serialization-artefact faults injected into the code object in transit (table permutations with operand renumbering, unreferenced entries, redundant EXTENDED_ARG, CO_NESTED, junk operand bytes; each gated by CPython's own dis/line reading) and benign transit shuffles of JSON text",
         "text": "Seeded search over operation histories {normalize, code round trip, JSON round trip} of bounded length on real CPython 3.7-3.10, with artefact perturbations of the code object in transit and of the original; invariant after every step: the normalized state equals the lineage's first normal form (library ==). Sampling of histories and perturbations, not proof.",
         "note": "Trusted: CPython's dis / co_lines / findlinestarts as the gate that a perturbed object is the same program; the harness's own bytecode reader/writer (sim/bytecode.py). A perturbed object that from_code refuses is counted inconclusive (C11 allows raising).",
+    },
+    "C07": {
+        "engine": "B-exchange-simulation",
+        "category": "exploration",
+        "design_ref": "DESIGN.md sections 5.1, 5.3",
+        "technique": "deterministic simulation of a document exchange: a hub-owned transport between real interpreter processes (seeded hash seeds) that transcodes (json options, orjson), shuffles, duplicates, reorders and restarts; monitors on every message in flight (strict JSON, two independent schema validators) and reload on the producer and on a fresh same-version node with strict fingerprints",
+        "text": "Seeded search over exchange runs: every document entering the hub's transport (raw and normalized, from producers on CPython 3.7-3.10) is checked as it travels for strictness (types, keys, finite floats, |int|<=2^53-1, UTF-8, json/orjson agreement), validity against the exported JSON_SCHEMA under fastjsonschema and jsonschema, and - after a real serialize/parse cycle through a seeded transcoder - reload to data equal (==, hash) to what the producer holds and, on a fresh node of the producing version under another hash seed, to identical strict fingerprints of the data and of its to_code(). The constant space is covered by the workload (constant zoo, hand-grafted nested constants, surrogate strings in every string position), not by the simulator; sampling, not proof.",
+        "note": "Borderline applicability (DESIGN.md section 2): the core is an input universal; what the simulator owns is the wire, the JSON implementation on each side and the hash seed of the receiving process. Trusted: json, orjson, fastjsonschema, jsonschema; strict fingerprints. Integers beyond the interpreter's int<->str digit limit are outside the explored space.",
     },
     "C08": {
         "engine": "A-history-machine",
